@@ -116,7 +116,7 @@ def var_positions(body, nvars):
     return pos
 
 
-def instantiate(quants, ground, cap=8, goal_forms=(), done=None):
+def instantiate(quants, ground, cap=14, goal_forms=(), done=None, prio_forms=()):
     """instances of forall-hypotheses at ground index terms (trigger-guided; terms that
     occur in the goal first; at most ``cap`` candidates per bound variable)"""
     occ = ground_index_terms(ground)
@@ -125,6 +125,10 @@ def instantiate(quants, ground, cap=8, goal_forms=(), done=None):
     for v in gocc.values():
         for t in v:
             gids.add(t.get_id())
+    pids = set()
+    for v in ground_index_terms(prio_forms).values():
+        for t in v:
+            pids.add(t.get_id())
     out = []
     done = done if done is not None else set()
     for q in quants:
@@ -140,7 +144,7 @@ def instantiate(quants, ground, cap=8, goal_forms=(), done=None):
                 off = p[2] if len(p) > 2 else 0
                 for t in occ.get(key, []):
                     tt = z3.simplify(t - off) if off else z3.simplify(t)
-                    terms[tt.get_id()] = (tt, 0 if t.get_id() in gids else 1)
+                    terms[tt.get_id()] = (tt, 0 if t.get_id() in gids else (1 if t.get_id() in pids else 2))
             tl = [t for t, _ in sorted(terms.values(), key=lambda x: x[1])][:cap]
             if not tl:
                 ok = False
@@ -148,7 +152,7 @@ def instantiate(quants, ground, cap=8, goal_forms=(), done=None):
             cands.append(tl)
         if not ok:
             continue
-        for combo in itertools.islice(itertools.product(*cands), 64):
+        for combo in itertools.islice(itertools.product(*cands), 120):
             key = (q.get_id(),) + tuple(c.get_id() for c in combo)
             if key in done:
                 continue
@@ -196,9 +200,9 @@ def prepare(eng, ob, inst_rounds=3, level=0):
         # candidate terms: the original ground material (and the goal); instances only feed
         # later rounds through the goal-ranked cap, which keeps offset chains from growing
         src = ground + ([f for f in inst_all if not has_quant(f)] if rnd > 0 else [])
-        new = instantiate(quants_now, src, goal_forms=goal_forms, done=done_inst)
+        new = instantiate(quants_now, src, cap=(14 if level == 0 else 40), goal_forms=goal_forms, done=done_inst, prio_forms=extra)
         for f in guarded_now:
-            for i in instantiate([f.arg(1)], src, goal_forms=goal_forms, done=done_inst):
+            for i in instantiate([f.arg(1)], src, cap=(14 if level == 0 else 40), goal_forms=goal_forms, done=done_inst, prio_forms=extra):
                 new.append(z3.Implies(f.arg(0), i))
         fresh = []
         for i in new:
